@@ -55,6 +55,9 @@ type Sched struct {
 	Immediate bool `json:"immediate,omitempty"` // completes without waiting for a release
 	Polls     int  `json:"polls,omitempty"`     // number of extra polls before the host releases it
 	Err       bool `json:"err,omitempty"`       // completes with an error
+	// Close: a channel-returning handler reports success by closing its channel without sending (and
+	// closes it after sending when it reports an error); other shapes ignore it
+	Close bool `json:"close,omitempty"`
 }
 
 // MInv is a command invocation as the model sees it.
